@@ -329,6 +329,7 @@ __CPROVER_ensures(RC3(R) && C05_POST_COMMON && C05_MONO(tx))
 __CPROVER_ensures(g_seq == 1 && EV_RAN(res_line) && EV_ONLY(res_line, none, none, none, none) && g_hook_tx_last == (const void *) tx && R == g_hook_rc_last)
 ;
 
+/* NOT PROVED (unit disabled, see units/c05_life.py): cbmc does not finish within 240 s on this function. */
 /* ---- htp_tx_state_response_headers: content-coding set-up around the RESPONSE_HEADERS hook ------------------------------------ */
 #define C05_CE_CAP 16
 void *contract_c05_table_get_c(const htp_table_t *table, const char *ckey)
